@@ -69,7 +69,8 @@ def dep_invalidation_propagates(ctx):
             for bb, t in calls_in(a, Rinv, lambda n: n in req_fanout):
                 agg = direct_msg_aggregate(a, t["args"][2]) if len(t["args"]) > 2 else None
                 if agg and agg[1]["rv"]["variant"] == "Invalidated" and "msg" in kind_of_operand(a, agg_field_op(agg[1], "kind")) \
-                        and "msg" in kind_of_operand(a, t["args"][1]) and is_awaited(a, bb):
+                        and "msg" in kind_of_operand(a, t["args"][1]) and is_awaited(a, bb) \
+                        and not conditions_within(dominating_conditions(a, bb, Rinv), [(cond_is_insert_result("unavailable_dependencies"), True), (cond_len_eq_one("unavailable_dependencies"), True)]):
                     good.append(bb)
             ctx.check(bool(good), f"{lab}/Invalidated", [site(a, b) for b in good] or [a.loc(min(Rinv))],
                       "the aggregate does not forward Invalidated (with the incoming kind) to its requesters", props=["C06", "C20"])
@@ -136,21 +137,55 @@ def watcher_ctor_bodies(ctx):
     return [(b, bb, t) for b in ctx.f.user_bodies() for bb, t in b.calls() if t["callee"]["base"].endswith("Watcher::watch") and "notify" in callee_decl(t)]
 
 
-@rule("C06.MISSING-PATH-TOLERATED", ["C06"], """a declared path that does not exist yet does not make watcher construction fail""", "K1", floor=1)
+@rule("C06.MISSING-PATH-TOLERATED", ["C06"], """a declared path that does not exist yet does not make watcher construction fail: the error returned for a failed `watch` is never
+      produced for a missing path, in either form the library reports it (ErrorKind::PathNotFound, or ErrorKind::Io with io::ErrorKind::NotFound)""", "K1", floor=1)
 def missing_path_tolerated(ctx):
     ws = watcher_ctor_bodies(ctx)
     ctx.need(ws, "call of notify Watcher::watch")
     for (b, bb, t) in ws:
-        Rpnf = variant_region(b, "ErrorKind", "PathNotFound")
-        if not Rpnf:
-            # no dedicated arm: then any watch error must be tolerated (no Err/return in the Err region) - otherwise violation
-            Rerr = variant_region(b, "Result", "Err", on_pred=lambda on: on["local"] == t["dest"]["local"])
-            errs = [x for (x, st) in b.aggregates("Result", "Err") if x in Rerr]
-            ctx.check(not errs, f"{short(b.name)}/PathNotFound", [site(b, bb)], "a watch on a missing path is turned into an error: watch mode cannot start on a clean tree")
+        # accepted alternative idiom: the watch is only attempted on paths that exist
+        Gex = guard_region(b, lambda d: d[0] == "call" and d[1].endswith("Path::exists"), True)
+        if bb in Gex:
+            ctx.ok(f"{short(b.name)}/missing-path", [site(b, bb)], "watch attempted only on existing paths")
             continue
-        errs = [x for (x, st) in b.aggregates("Result", "Err") if x in Rpnf]
-        rets = [x for x in Rpnf if b.term(x)["k"] == "return"]
-        ctx.check(not errs and not rets, f"{short(b.name)}/PathNotFound", [site(b, bb)], "the PathNotFound arm returns (an error): watch mode cannot start on a clean tree")
+        dl = t["dest"]["local"]
+        err_edges = [e for e in b.edges if e.label and e.label[0] == "variant" and path_ends(e.label[1] or "", "Result") and "Err" in e.label[2] and e.label[3] and e.label[3]["local"] == dl]
+        if not err_edges:
+            # `?` or unwrap on the watch result: every error, including a missing path, fails construction
+            ctx.bad(f"{short(b.name)}/missing-path", [site(b, bb)], "the result of `watch` is propagated without looking at the error: a missing declared path makes watch mode fail on a clean tree")
+            continue
+        bad = []
+        n_paths = 0
+        for ee in err_edges:
+            Rerr = b.dominated_by_edge(ee)
+            ret_errs = [x for (x, st) in b.aggregates("Result", "Err") if x in Rerr and st["lhs"]["local"] == 0]
+            tries = [tb for (tb, sb, ce, be) in try_edges(b) if tb in Rerr]
+            targets = set(ret_errs) | set(tries)
+            if not targets:
+                continue
+            for p in enumerate_paths(b, start=ee.dst, stop_at=targets):
+                if not p or p[-1].dst not in targets and ee.dst not in targets:
+                    continue
+                n_paths += 1
+                kinds_taken = [e for e in p if e.label and e.label[0] == "variant" and path_ends(e.label[1] or "", "ErrorKind") and "notify" in (e.label[1] or "")]
+                via_pnf = any("PathNotFound" in e.label[2] for e in kinds_taken)
+                via_io = any("Io" in e.label[2] for e in kinds_taken) or not kinds_taken
+                def not_found_test(o):
+                    def is_kind_call(x):
+                        return x[0] == "call" and x[1].endswith("io::Error::kind")
+                    if o[0] == "call" and (o[1].endswith("PartialEq>::eq") or o[1].endswith("PartialEq>::ne")):
+                        at = set()
+                        for a in o[3]["args"]:
+                            at |= b.prov.operand_atoms(a)
+                        return any(c.endswith("io::Error::kind") for c in atom_callres(at)) and "NotFound" in atom_aggs(at, "ErrorKind")
+                    return False
+                facts = path_facts(b, p)
+                io_ok = has_fact(facts, "bool", False, lambda o: not_found_test(o) and o[1].endswith("::eq")) or has_fact(facts, "bool", True, lambda o: not_found_test(o) and o[1].endswith("::ne"))
+                if via_pnf or (via_io and not io_ok):
+                    bad.append((p, "PathNotFound" if via_pnf else "Io(NotFound)"))
+        ctx.check(not bad and n_paths >= 1, f"{short(b.name)}/missing-path", [site(b, bb)],
+                  (f"an error is returned for a missing path reported as {sorted({w for _, w in bad})}: watch mode cannot start on a clean tree where a declared path (e.g. a dependency's output) does not exist yet; e.g. {fmt_path(b, bad[0][0])}") if bad else "no error path found",
+                  detail=f"{n_paths} error-returning path(s) examined")
 
 
 @rule("C06.RECURSIVE", ["C06", "C16"], """paths are watched recursively""", "K5", floor=1)
